@@ -59,6 +59,7 @@ def execMapOp (st : DState) (env : Env) (name : String) (args : List String) (ot
     | .fault f => ({ ret := s!"FAULT({f})", w := w }, true, none)
   | "clone_from", [] => no <| resOutW (Map.cloneFrom cfg env other w) w
   | "eq", [] => no <| resOut (Map.mapEq cfg env other w) toString w
+  | "self_eq", [] => no <| resOut (Map.mapEq cfg env w.t w) toString w
   | "nop", [] => no ({ ret := "()", w := w }, false)
   | _, _ => execEntryOp st env name args other w
 
